@@ -374,15 +374,22 @@ def cases(rng, tier):
             rands.append(dict(kind='dt1d', data=data, strided=rng.random() < 0.5))
     # very long lines (1 x n, n x 1, n > 4096): squared coordinates beyond 2^24 need every intermediate in double
     # precision; labels / background pixels are sparse, with adjacent pairs at high coordinates
-    for i in range(dict(quick=4, thorough=40, search=10)[tier]):
-        n = rng.randint(4200, 7000)
+    nlong = dict(quick=4, thorough=40, search=10)[tier]
+    # ... and lines beyond 46341 pixels (46341^2 > 2^31 - 1): every square of a coordinate, of the envelope's vertices
+    # as well as of the running position, has to be taken in the wide type; several sources lie beyond that index
+    nhuge = dict(quick=2, thorough=8, search=4)[tier]
+    for i in range(nlong + nhuge):
+        huge = i >= nlong
+        n = rng.randint(46500, 52000) if huge else rng.randint(4200, 7000)
         shape = [1, n] if i % 2 == 0 else [n, 1]
         pos = sorted({rng.randint(0, n - 1) for _ in range(rng.randint(2, 6))})
         for _ in range(2):
-            v = rng.randint(4097, n - 2)
+            v = rng.randint(46342 if huge else 4097, n - 2)
             pos += [v, v + 1]
+        if huge:
+            pos += [46341, rng.randint(46342, n - 1), rng.randint(46342, n - 1)]
         pos = sorted(set(pos))
-        if i % 4 < 3:
+        if (i % 2 == 0) if huge else (i % 4 < 3):
             data = [0] * n
             for k, q in enumerate(pos):
                 data[q] = k + 1
